@@ -117,13 +117,18 @@ Definition k_sdelta (nz : nat) (z : nat -> nat -> tc) (d : nat) (x y l : nat -> 
                  (tsum d (fun m => tmul (z s m) (tdiv (tsub (x m) (y m)) (l m)))))))
        (tnat nz).
 
-(* ArcKernel: cylindrical embedding g_i(x) = omega_i [sin(pi rho_i x_i / l_i), cos(...)]
-   (all sines first, then all cosines), then the base kernel on the embedded points *)
-Definition arc_embed (d : nat) (rad ang l x : nat -> tc) : nat -> tc :=
+(* ArcKernel: cylindrical embedding, as the class docstring gives it:
+     g_i(x) = [0, 0]                                        if delta_i(x) = false
+            = omega_i [sin(pi rho_i x_i / l_i), cos(...)]   otherwise
+   (all sines first, then all cosines), then the base kernel on the embedded points.  delta is the
+   constructor option [delta_func] (a user-supplied activity predicate, default: always active);
+   the formula takes its VALUE at the point as the indicator act_i(x) in {0, 1} (what delta_func
+   returns), so g_i(x) = act_i(x) omega_i [sin, cos]. *)
+Definition arc_embed (d : nat) (rad ang l act x : nat -> tc) : nat -> tc :=
   fun m => if Nat.ltb m d
-           then tmul (rad m) (tsin (tmul (tmul tpi (ang m)) (tdiv (x m) (l m))))
+           then tmul (act m) (tmul (rad m) (tsin (tmul (tmul tpi (ang m)) (tdiv (x m) (l m)))))
            else let m' := (m - d)%nat in
-                tmul (rad m') (tcos (tmul (tmul tpi (ang m')) (tdiv (x m') (l m')))).
+                tmul (act m') (tmul (rad m') (tcos (tmul (tmul tpi (ang m')) (tdiv (x m') (l m'))))).
 
 (* CylindricalKernel (BOCK): K_radial(kuma(|x1|), kuma(|x2|)) * sum_p w_p (a1 . a2)^p,
    a = x/|x|, kuma(r) = 1 - (1 - r^alpha + eps)^beta (Kumaraswamy cdf; eps = the documented
@@ -398,8 +403,13 @@ Fixpoint eval (k : kern) (o : nat) (x y : list tc) {struct k} : tc :=
   | KSM w mu s => k_sm (length w) (pick w) (pick2 mu) (pick2 s) d (vfun x) (vfun y)
   | KSDelta z l => k_sdelta (length z) (pick2 z) d (vfun x) (vfun y) (pk l)
   | KArc base rad ang l =>
-      let ex := map (arc_embed d (pick rad) (pick ang) (pick l) (vfun x)) (seq 0 (2 * d)) in
-      let ey := map (arc_embed d (pick rad) (pick ang) (pick l) (vfun y)) (seq 0 (2 * d)) in
+      (* a point of an ArcKernel is given as its dd coordinates followed by the dd values
+         delta_i(x) of the kernel's delta_func at that point (1 = active, 0 = inactive) *)
+      let dd := Nat.div d 2 in
+      let ex := map (arc_embed dd (pick rad) (pick ang) (pick l) (fun m => vfun x (dd + m)) (vfun x))
+                    (seq 0 (2 * dd)) in
+      let ey := map (arc_embed dd (pick rad) (pick ang) (pick l) (fun m => vfun y (dd + m)) (vfun y))
+                    (seq 0 (2 * dd)) in
       eval base o ex ey
   | KCyl w alpha beta eps radial =>
       let rx := kuma (tq alpha) (tq beta) (tq eps) (vnorm d (vfun x)) in
